@@ -364,7 +364,7 @@ def run(v, params, kind="tuple", delivery="list", on_token=None):
             if len(res) != len(snap) or any(len(a[0]) != len(b[0]) or tuple(a[1:]) != tuple(b[1:]) or any(x is not y for x, y in zip(a[0], b[0])) for a, b in zip([tuple(t) for t in res], snap)):
                 raise EarlierResultAltered(f"what the ORIGINAL tokenizer returned changed when its copy was used ({len(snap)} tokens then, {len(res)} now)")
         return frames, tokens, src
-    if opts.get("threads") == "alternate" and mode == "generator" and prior is None:
+    if opts.get("threads") == "alternate" and mode == "generator":
         # successive next() calls on one generator come from two long-lived threads, one call at a time (a blocking generator
         # driven through an executor): no concurrency, only another thread
         from concurrent.futures import ThreadPoolExecutor
@@ -374,6 +374,10 @@ def run(v, params, kind="tuple", delivery="list", on_token=None):
         tokens = []
         with ThreadPoolExecutor(1) as ea, ThreadPoolExecutor(1) as eb:
             ea.submit(lambda: None).result(), eb.submit(lambda: None).result()
+            if prior is not None:
+                # one of the two threads has used this tokenizer before, for a complete run on another stream
+                frames1, _ = FRAME_KINDS[kind](prior)
+                eb.submit(tk.tokenize, CountingSource(frames1)).result()
             g = eb.submit(tk.tokenize, src, None, True).result()
             k = 0
             while True:
